@@ -312,7 +312,13 @@ func (fs Facts) kill(name string) Facts {
 		if f.key == name || (strings.HasPrefix(f.key, name) && len(f.key) > len(name) && strings.ContainsRune(".[<>=!", rune(f.key[len(name)]))) {
 			continue
 		}
-		// a fact "x == y" style is never stored (values are constants), so no RHS kill needed
+		// a variable-to-variable fact "x==y" dies with either side
+		if i := strings.Index(f.key, "=="); i > 0 {
+			rhs := f.key[i+2:]
+			if rhs == name || (strings.HasPrefix(rhs, name) && len(rhs) > len(name) && strings.ContainsRune(".[", rune(rhs[len(name)]))) {
+				continue
+			}
+		}
 		out = append(out, f)
 	}
 	return out
@@ -507,11 +513,24 @@ func (fl *Flow) alts(cond ast.Expr, outcome bool) [][]fact {
 			if k, v := fl.trackKey(c.Y), fl.atomVal(c.X); k != "" && v != "" && fl.atomVal(c.Y) == "" {
 				return [][]fact{{{k, eq, v}}}
 			}
+			// two trackable, non-constant operands: an opaque boolean fact
+			// "a==b" (operands in a fixed order)
+			if a, b := fl.trackKey(c.X), fl.trackKey(c.Y); a != "" && b != "" && fl.atomVal(c.X) == "" && fl.atomVal(c.Y) == "" {
+				if b < a {
+					a, b = b, a
+				}
+				return [][]fact{{{a + "==" + b, true, fmt.Sprint(eq)}}}
+			}
 		case token.LSS, token.LEQ, token.GTR, token.GEQ:
 			// an ordered comparison of a trackable expression with a constant
 			// is remembered as an opaque boolean fact keyed by its text
 			if k, v := fl.trackKey(c.X), fl.atomVal(c.Y); k != "" && v != "" && fl.atomVal(c.X) == "" {
 				return [][]fact{{{k + c.Op.String() + v, true, fmt.Sprint(outcome)}}}
+			}
+			// constant on the left: the same fact, written the canonical way round
+			if k, v := fl.trackKey(c.Y), fl.atomVal(c.X); k != "" && v != "" && fl.atomVal(c.Y) == "" {
+				m := map[token.Token]string{token.LSS: ">", token.LEQ: ">=", token.GTR: "<", token.GEQ: "<="}[c.Op]
+				return [][]fact{{{k + m + v, true, fmt.Sprint(outcome)}}}
 			}
 		}
 	case *ast.Ident:
